@@ -698,7 +698,7 @@ def check_C12(ctx):
     level = "proof"
     if not model_available(ctx):
         return infra_failure(ctx, level)
-    ok, ob, problems = proof_status(ctx, ["C12_always_selection", "C12_boundary_optional_enum", "C12_checked_in_total", "C12_encode_correct"])
+    ok, ob, problems = proof_status(ctx, ["C12_always_selection", "C12_boundary_optional_enum", "C12_checked_in_total", "C12_encode_correct", "C12_decode_correct", "C12_round_trip"])
     sch = fresh_set(ctx)
     bnd = {k: v[1]() for k, v in F.BOUNDARY.items()}
     res = fresh_driver(ctx)
@@ -806,7 +806,7 @@ def check_C12(ctx):
         return E.finish(ctx, level, trusted=KERNEL_TB)
     flt = fresh_filter(res)
     spec = dict(
-        theorems=["C12_always_selection", "C12_boundary_optional_enum", "C12_checked_in_total", "C12_encode_correct"],
+        theorems=["C12_always_selection", "C12_boundary_optional_enum", "C12_checked_in_total", "C12_encode_correct", "C12_decode_correct", "C12_round_trip"],
         suites=lambda c: [("msg", ["msg", c.seed, _n(c, 5000, 40000), ".proto:"], res["driver"]), ("decv", ["decv", c.seed, _n(c, 4000, 20000), ".proto:"], res["driver"])],
         filter=flt,
         prop={"msg": lambda r: r["impl"] != "PANIC" and all(r["flags"].get(k) in ("ok", "na") for k in ("c01", "c03", "c06", "c08o", "c08r")) and r["flags"].get("get", "ok") == "ok",
